@@ -20,12 +20,14 @@ import (
 
 	"github.com/openconfig/gnmi/connection"
 	"google.golang.org/grpc"
+	"google.golang.org/grpc/balancer"
+	"google.golang.org/grpc/balancer/base"
 	"google.golang.org/grpc/connectivity"
 	"google.golang.org/grpc/credentials/insecure"
 	"google.golang.org/grpc/resolver"
 )
 
-// Ev is one script event.  K: req pass dial failgo release cancel closego again.
+// Ev is one script event.  K: req pass dial failgo release cancel closego again break.
 type Ev struct {
 	K    string `json:"k"`
 	I    int    `json:"i"`              // thread (req pass release cancel again), creator of the dial (dial failgo), handle (closego)
@@ -100,6 +102,8 @@ type ctl struct {
 	handles  map[int]*grpc.ClientConn
 	byConn   map[*grpc.ClientConn]int
 	curReq   int
+	bals     map[int]*hBalancer    // handle -> its balancer
+	broken   map[int]bool          // handle was driven to TRANSIENT_FAILURE
 	pClose   map[int]chan struct{} // handle -> its Close() is parked in the resolver
 	parked   int                   // handle whose Close is parked, -1 if none
 	used     bool                  // a lock-kind event was already played during this park
@@ -149,7 +153,7 @@ func newCtl() *ctl {
 		canceled: map[int]bool{}, dials: map[int]*dialrec{}, pJoined: map[int]chan struct{}{},
 		pFailed: map[int]chan struct{}{}, byGoid: map[uint64]int{}, dialGoid: map[uint64]int{},
 		handles: map[int]*grpc.ClientConn{}, byConn: map[*grpc.ClientConn]int{}, curReq: -1, extra: 900,
-		pClose: map[int]chan struct{}{}, parked: -1,
+		pClose: map[int]chan struct{}{}, parked: -1, bals: map[int]*hBalancer{}, broken: map[int]bool{},
 	}
 	c.self = goid()
 	m, err := connection.NewManagerCustom(map[string]connection.Dial{connection.DEFAULT: c.dial})
@@ -247,21 +251,20 @@ func (c *ctl) dial(ctx context.Context, target string, _ ...grpc.DialOption) (*g
 		if !ok {
 			return nil, errScripted
 		}
-		var cc *grpc.ClientConn
-		var err error
+		// A real ClientConn with a resolver and a balancer of our own: the
+		// resolver's Close parks for slow handles (ClientConn.Close waits for
+		// it), the balancer lets the script set the connectivity state.
+		kind := "plain"
 		if d.slow {
-			// a resolver of our own: ClientConn.Close waits for its Close, which parks
-			cc, err = grpc.NewClient(fmt.Sprintf("c16slow:///%d", creator),
-				grpc.WithTransportCredentials(insecure.NewCredentials()), grpc.WithResolvers(slowBuilder{}))
-			if err == nil {
-				cc.Connect() // leave idle mode so that the resolver is built
-			}
-		} else {
-			cc, err = grpc.NewClient("passthrough:///x", grpc.WithTransportCredentials(insecure.NewCredentials()))
+			kind = "slow"
 		}
+		cc, err := grpc.NewClient(fmt.Sprintf("c16h:///%d/%s", creator, kind),
+			grpc.WithTransportCredentials(insecure.NewCredentials()), grpc.WithResolvers(hBuilder{}),
+			grpc.WithDefaultServiceConfig(`{"loadBalancingConfig":[{"c16bal":{}}]}`))
 		if err != nil {
 			panic(err)
 		}
+		cc.Connect() // leave idle mode so that resolver and balancer are built
 		c.mu.Lock()
 		c.handles[creator] = cc
 		c.byConn[cc] = creator
@@ -484,6 +487,10 @@ func (c *ctl) enabled(e Ev) bool {
 	case "closego":
 		_, ok := c.pClose[e.I]
 		return ok
+	case "break":
+		cc, ok := c.handles[e.I]
+		_, hasBal := c.bals[e.I]
+		return ok && hasBal && cc.GetState() != connectivity.Shutdown
 	case "again":
 		// one more caller of a done function whose call is in flight (the
 		// closer, or the release that is blocked behind the parked Close)
@@ -592,6 +599,13 @@ func (c *ctl) do(e Ev) Obs {
 		c.canceled[e.I] = true
 		c.mu.Unlock()
 		cancel()
+	case "break":
+		c.mu.Lock()
+		b := c.bals[e.I]
+		c.broken[e.I] = true
+		c.mu.Unlock()
+		b.cc.UpdateState(balancer.State{ConnectivityState: connectivity.TransientFailure,
+			Picker: base.NewErrPicker(errScripted)})
 	case "again":
 		c.mu.Lock()
 		t = c.threads[e.I]
@@ -607,6 +621,21 @@ func (c *ctl) do(e Ev) Obs {
 		close(ch)
 	}
 	busyForever := !c.settle(5 * time.Second)
+	if e.K == "break" {
+		// wait until the handle itself reports the state
+		c.mu.Lock()
+		cc := c.handles[e.I]
+		c.mu.Unlock()
+		for t0 := time.Now(); cc.GetState() != connectivity.TransientFailure && time.Since(t0) < 5*time.Second; {
+			time.Sleep(50 * time.Microsecond)
+			c.settle(time.Second)
+		}
+		if st := cc.GetState(); st != connectivity.TransientFailure {
+			c.mu.Lock()
+			c.bad, c.msg = 2, "handle did not reach TRANSIENT_FAILURE: "+st.String()
+			c.mu.Unlock()
+		}
+	}
 	c.mu.Lock()
 	o := Obs{Rets: c.rets, Joined: c.joined, Dials: c.ndials, Failing: c.failing, InClose: c.inclose,
 		RelDone: c.reldone, Bad: c.bad, Msg: c.msg}
@@ -705,26 +734,36 @@ func (c *ctl) finish() (wedged bool) {
 }
 
 // ---------------------------------------------------------------------------
-// handles whose Close can be held open
+// handles: Close can be held open (slow), connectivity state can be set
 
-type slowBuilder struct{}
+type hBuilder struct{}
 
-func (slowBuilder) Scheme() string { return "c16slow" }
+func (hBuilder) Scheme() string { return "c16h" }
 
-func (slowBuilder) Build(t resolver.Target, _ resolver.ClientConn, _ resolver.BuildOptions) (resolver.Resolver, error) {
-	h, err := strconv.Atoi(strings.TrimPrefix(t.URL.Path, "/"))
+func (hBuilder) Build(t resolver.Target, cc resolver.ClientConn, _ resolver.BuildOptions) (resolver.Resolver, error) {
+	parts := strings.Split(strings.TrimPrefix(t.URL.Path, "/"), "/")
+	h, err := strconv.Atoi(parts[0])
 	if err != nil {
 		h = 998
 	}
-	return &slowResolver{h: h}, nil
+	r := &hResolver{h: h, slow: len(parts) > 1 && parts[1] == "slow"}
+	// one (unreachable, never dialled) address: makes the channel build the balancer
+	cc.UpdateState(resolver.State{Addresses: []resolver.Address{{Addr: fmt.Sprintf("h-%d", h)}}})
+	return r, nil
 }
 
-type slowResolver struct{ h int }
+type hResolver struct {
+	h    int
+	slow bool
+}
 
-func (*slowResolver) ResolveNow(resolver.ResolveNowOptions) {}
+func (*hResolver) ResolveNow(resolver.ResolveNowOptions) {}
 
 // Close is called by (*grpc.ClientConn).Close, which waits for it.
-func (r *slowResolver) Close() {
+func (r *hResolver) Close() {
+	if !r.slow {
+		return
+	}
 	current.mu.Lock()
 	c := current.c
 	current.mu.Unlock()
@@ -744,3 +783,41 @@ func (r *slowResolver) Close() {
 	c.mu.Unlock()
 	<-ch
 }
+
+type hBalBuilder struct{}
+
+func (hBalBuilder) Name() string { return "c16bal" }
+func (hBalBuilder) Build(cc balancer.ClientConn, _ balancer.BuildOptions) balancer.Balancer {
+	return &hBalancer{cc: cc}
+}
+
+// hBalancer creates no sub-connections; it reports CONNECTING until the script
+// breaks the handle.
+type hBalancer struct {
+	cc balancer.ClientConn
+}
+
+func (b *hBalancer) UpdateClientConnState(s balancer.ClientConnState) error {
+	h := -1
+	if as := s.ResolverState.Addresses; len(as) > 0 {
+		if v, err := strconv.Atoi(strings.TrimPrefix(as[0].Addr, "h-")); err == nil {
+			h = v
+		}
+	}
+	current.mu.Lock()
+	c := current.c
+	current.mu.Unlock()
+	if c != nil && h >= 0 {
+		c.mu.Lock()
+		c.bals[h] = b
+		c.mu.Unlock()
+	}
+	b.cc.UpdateState(balancer.State{ConnectivityState: connectivity.Connecting,
+		Picker: base.NewErrPicker(balancer.ErrNoSubConnAvailable)})
+	return nil
+}
+func (*hBalancer) ResolverError(error)                                      {}
+func (*hBalancer) UpdateSubConnState(balancer.SubConn, balancer.SubConnState) {}
+func (*hBalancer) Close()                                                   {}
+
+func init() { balancer.Register(hBalBuilder{}) }
